@@ -338,6 +338,12 @@ impl<const ASSETS: usize, const LEVELS: usize> MarketEnv<ASSETS, LEVELS> {
     pub fn get_transactions(&self) -> &Vec<Event<MarketOrderId>> {
         &self.transactions
     }
+
+    /// Verification hook (feature `bourse_verif`): read-only view of the queued instructions
+    #[cfg(feature = "bourse_verif")]
+    pub fn verif_transactions(&self) -> &Vec<Event<MarketOrderId>> {
+        &self.transactions
+    }
 }
 
 #[cfg(test)]
